@@ -233,7 +233,9 @@ class Request(HTTPConnection):
         This can always be called, regardless of whether you use form or not.
         """
         if "form" in self.__dict__ and self.__dict__["form"].done():
-            await (await self.form).aclose()
+            form = self.__dict__["form"]
+            if not form.cancelled() and form.exception() is None:
+                await form.result().aclose()
 
     async def is_disconnected(self) -> bool:
         """
